@@ -69,6 +69,11 @@ at the top-level directory.
 #ifdef SLU_VERIF
 /* verification hook H1: non-zero entries override the compiled-in tuning values */
 int slu_verif_ienv[8] = {0, 0, 0, 0, 0, 0, 0, 0};
+/* verification hook H2: pivot event callback used by [sdcz]pivotL (NULL = off) */
+#include "superlu_config.h"
+void (*slu_verif_pivot_hook)(int phase, int dtype, int jcol, double u, int usepr,
+			     int pivrow, int diagind, int ncand, const int_t *rows,
+			     const void *vals, int info) = 0;
 #endif
 
 int
